@@ -137,6 +137,57 @@ Proof.
 Qed.
 
 (* ---------------------------------------------------------------------------------------------
+   writers: every guarded store run fits *)
+Lemma run_indices_lt : forall size r n, (n <= r)%N -> (r <= size)%N ->
+  forallb (fun i => (i <? size)%N) (run_indices size r n) = true.
+Proof.
+  intros size r n Hn Hr. unfold run_indices. apply forallb_forall. intros i Hi.
+  apply in_map_iff in Hi. destruct Hi as [j [Hj Hin]]. apply in_seq in Hin. subst i.
+  apply N.ltb_lt. lia.
+Qed.
+
+Lemma guarded_run_fits : forall size k n d r, (n <= k)%N -> (d = n)%N -> (k <= size)%N -> (r <= size)%N ->
+  exists r2, guarded_run size k n d r = Some r2 /\ (r2 <= size)%N /\
+             (size - r2 = size - (if (r <? k)%N then size else r) + n)%N.
+Proof.
+  intros size k n d r Hn Hd Hk Hr. unfold guarded_run. subst d.
+  destruct (r <? k)%N eqn:E.
+  - rewrite (run_indices_lt size size n) by lia. replace (n <=? size)%N with true by (symmetry; apply N.leb_le; lia).
+    cbn. eexists. split; [reflexivity|]. lia.
+  - rewrite (run_indices_lt size r n) by lia. replace (n <=? r)%N with true by (symmetry; apply N.leb_le; lia).
+    cbn. eexists. split; [reflexivity|]. lia.
+Qed.
+
+Definition writer_runs_ok : bool :=
+  forallb (fun e => match e with (cls, k, n, d) => (n <=? k)%N && (d =? n)%N && (k <=? writer_size cls)%N && (1 <=? n)%N end) writer_runs &&
+  negb (Nat.eqb (List.length writer_runs) 0) &&
+  forallb (fun e => (1 <=? writer_size (fst e))%N) writer_length_runs.
+
+Lemma writer_runs_ok_true : writer_runs_ok = true.
+Proof. vm_compute. reflexivity. Qed.
+
+Lemma writer_runs_fit_l : forall cls k n d, In (cls, k, n, d) writer_runs ->
+  forall r, (r <= writer_size cls)%N ->
+  exists r2, guarded_run (writer_size cls) k n d r = Some r2 /\ (r2 <= writer_size cls)%N.
+Proof.
+  intros cls k n d Hin r Hr. pose proof writer_runs_ok_true as H. unfold writer_runs_ok in H.
+  repeat rewrite andb_true_iff in H. destruct H as [[H _] _]. rewrite forallb_forall in H.
+  specialize (H _ Hin). cbn beta iota in H. repeat rewrite andb_true_iff in H. destruct H as [[[H1 H2] H3] _].
+  destruct (guarded_run_fits (writer_size cls) k n d r) as [r2 [E [L _]]]; try lia.
+  exists r2. split; assumption.
+Qed.
+
+(* a run guarded by its own length: k = n = d = len, for every len the buffer can hold *)
+Lemma writer_length_runs_fit_l : forall cls how, In (cls, how) writer_length_runs ->
+  forall len r, (len <= writer_size cls)%N -> (r <= writer_size cls)%N ->
+  exists r2, guarded_run (writer_size cls) len len len r = Some r2 /\ (r2 <= writer_size cls)%N.
+Proof.
+  intros cls how _ len r Hl Hr.
+  destruct (guarded_run_fits (writer_size cls) len len len r) as [r2 [E [L _]]]; try lia.
+  exists r2. split; assumption.
+Qed.
+
+(* ---------------------------------------------------------------------------------------------
    tokenizer quote scans *)
 Lemma quote_scan_l : forall name test, In (name, test) quote_scan_tests ->
   forall fuel quote pat i n k, In k (scan_reads fuel test quote pat i n) -> (k < n)%N.
